@@ -18,5 +18,8 @@ fn main() {
         ("crash", rates_mode::crash),
         ("crashchild", rates_mode::crashchild),
         ("arith", rates_mode::arith),
+        ("histf", rates_mode::histf),
+        ("doc", rates_mode::doc),
+        ("jsonnum", rates_mode::jsonnum),
     ]);
 }
